@@ -30,7 +30,7 @@ SEQ = dict(
 )
 TRACES = dict(
     quick=dict(traces=30, chunk=30, threads=3, ops=4, par=1),
-    thorough=dict(traces=1000, chunk=100, threads=4, ops=4, par=6),   # <= 16 operations per trace (+ the clears)
+    thorough=dict(traces=1000, chunk=100, threads=3, ops=4, par=6),   # <= 16 operations per trace (+ the clears)
 )
 TRACE_LIMIT = 90   # must equal Limit in TraceCache.cfg
 
@@ -144,7 +144,7 @@ def record(ctx, binary, seed, traces, threads, ops, out):
 def validate(ctx, trace_path, tag):
     """ctx.validate_trace with an explicit tag (own scratch copy of spec/), so that chunks can be validated concurrently."""
     r = ctx.tlc('TraceCache', 'TraceCache.cfg', workers=1, timeout=2400, extra_files={'trace.ndjson': trace_path}, dfs=True,
-                tag='trace-' + tag, heap='3g')
+                tag='trace-' + tag, heap='3g', count=False)
     if r.timed_out:
         raise vlib.Inconclusive('trace validation timed out')
     if not r.ok and not r.violated and 'Error' in r.stdout and 'postcondition' not in r.stdout.lower():
@@ -172,6 +172,7 @@ def validate_chunk(ctx, path, tag, stats):
                 f.writelines(lines)
         ok, r = validate(ctx, sub, f'{tag}-r{rounds}')
         stats['tlc_trace_states'] += r.distinct
+        stats['tlc_trace_generated'] = stats.get('tlc_trace_generated', 0) + r.generated
         exact, leaks = set(), {}
         for m in re.finditer(r'<<"@@EXACT", (\d+)>>', r.stdout):
             exact.add(int(m.group(1)))
@@ -235,8 +236,8 @@ def validate_chunk(ctx, path, tag, stats):
         ctx.traces_validated += 1
         ctx.divergences.append({'case': {'mode': 'trace', 'lines': bad_lines},
                                 'result': {'step': rel, 'patterns': [],
-                                           'msg': f'no linearization of Cache.tla explains the recorded trace beyond its line {rel} '
-                                                  f'({json.dumps(bad_lines[rel]) if 0 <= rel < len(bad_lines) else "?"})'}})
+                                           'msg': f'no linearization of Cache.tla explains the recorded trace: its line {rel} cannot be '
+                                                  f'consumed ({json.dumps(bad_lines[rel - 1]) if 1 <= rel <= len(bad_lines) else "?"})'}})
         pos = upto + 1
 
 
@@ -254,36 +255,130 @@ def overlapping(lines):
     return False
 
 
+def run_stored_case(ctx):
+    """./check C09 --replay <path>: re-run exactly one stored failing case against the current tree."""
+    with open(ctx.replay_path) as f:
+        case = json.load(f)['case']
+    ctx.states = ctx.transitions = 1
+    binary = ctx.go_build('cache')
+    ctx.rule = 'replay of one stored case'
+    if case.get('mode') == 'trace':
+        # a recorded trace cannot be re-executed (free-running goroutines); it is re-validated against the current spec
+        path = ctx.tmp('stored-trace.ndjson')
+        with open(path, 'w') as f:
+            for ln in case['lines']:
+                f.write(json.dumps(ln, separators=(',', ':')) + '\n')
+        stats = {'traces_accepted': 0, 'trace_ops': 0, 'traces_with_overlap': 0, 'tlc_trace_states': 0}
+        validate_chunk(ctx, path, 'stored', stats)
+        ctx.states = ctx.transitions = max(1, stats['tlc_trace_states'])
+        ctx.samples.append({'mode': 'trace', 'lines': case['lines'][:40]})
+        return
+    res, lines = ctx.replay(binary, [case], procs=1)
+    ctx.absorb(res, lines)
+
+
 def run(ctx):
+    if getattr(ctx, 'replay_path', None):
+        return run_stored_case(ctx)
+    import concurrent.futures
+    import threading
     tier = ctx.tier
     sq, tc = SEQ[tier], TRACES[tier]
-    workers = min(vlib.NCPU, 16)
+    ncpu = max(1, vlib.NCPU)             # the framework's CPU budget (/verif/.ncpu or VERIF_NCPU)
+    big = max(1, min(ncpu // 2, 8)) if tier == 'quick' else max(1, min(ncpu, 16) // 2)
 
-    # ---- 1. model checking of the concurrent design
-    r = ctx.tlc_must_pass('Cache', f'Cache.MC_{tier}.cfg', timeout=2400, coverage=True, workers=workers)
+    # ---- 1.-3. TLC runs (concurrently; counters are added after the join): model checking of the concurrent design, the two
+    #      leads (the strict contract fails on the model of the code; shortest counterexamples), generation of sequential
+    #      histories (dump of the result-aware VIEW-reduced space + random deep behaviours), and the harness build
+    def t_mc():
+        return ctx.tlc('Cache', f'Cache.MC_{tier}.cfg', timeout=2400, coverage=True, workers=big, tag='mc', count=False)
+
+    def t_lead1():
+        return ctx.tlc('Cache', 'Cache.Lead_dedup.cfg', timeout=900, workers=1, tag='lead1', count=False)
+
+    def t_lead2():
+        return ctx.tlc('Cache', 'Cache.Lead_stray.cfg', timeout=900, workers=1, tag='lead2', count=False)
+
+    def t_gen():
+        return ctx.tlc('Cache', sq['gen'], timeout=2400, dump=True, workers=max(1, min(4, ncpu // 2)), tag='gen', count=False)
+
+    def t_sim():
+        return ctx.tlc('Cache', SIM_CFG, simulate={'num': sq['sim'] * sq['simw'] // min(sq['simw'], ncpu)}, depth=sq['depth'], timeout=1500, workers=min(sq['simw'], ncpu),
+                       tag='sim', count=False)
+
+    def t_mc3():
+        return ctx.tlc('Cache', 'Cache.MC3_thorough.cfg', timeout=2400, coverage=True, workers=big, tag='mc3', count=False)
+
+    runs = [('mc', t_mc), ('lead1', t_lead1), ('lead2', t_lead2), ('gen', t_gen), ('sim', t_sim)]
+    if tier != 'quick':
+        runs.append(('mc3', t_mc3))     # three writers on one key, <= 5 operations
+    # at most three TLC processes (plus the go build) at a time
+    with concurrent.futures.ThreadPoolExecutor(max_workers=4) as ex:
+        futs = {n: ex.submit(f) for n, f in runs}
+        fb = ex.submit(ctx.go_build, 'cache')
+        R = {n: f.result() for n, f in futs.items()}
+        binary = fb.result()
+    for n in R:
+        ctx.states += R[n].distinct
+        ctx.transitions += R[n].generated
+        if R[n].timed_out:
+            raise vlib.Inconclusive(f'TLC run {n} timed out')
+    r = R['mc']
+    if not r.ok:
+        raise vlib.Inconclusive(f'TLC did not pass on Cache.MC_{tier}.cfg: violated={r.violated}\n' + '\n'.join(r.stdout.splitlines()[-30:]))
     # (vlib's coverage regex does not match TLC's "<Name line .. of module M (l c l c)>: d:g" form used for actions with
     #  bound variables, so the counts are taken from stdout here)
     for m in re.finditer(r'<(\w+) line \d+, col \d+ to line \d+, col \d+ of module \w+(?: \([\d ]+\))?>: (\d+):(\d+)', r.stdout):
         r.coverage[m.group(1)] = max(r.coverage.get(m.group(1), 0), int(m.group(3)))
     ctx.check_coverage(r, ['DoStartWrite', 'DoStartSnapshot', 'DoStartClear', 'DoStartDelete', 'DoStartRead',
-                           'IWCapture', 'IWReserve', 'IWStore', 'ICFinish', 'IRCopy'])
+                           'IWCapture', 'IWReserve', 'IWStore', 'ICResetK', 'ICFinish', 'IRCopy'])
     ctx.extra_cov['mc_action_coverage'] = {a: r.coverage.get(a, 0) for a in sorted(r.coverage) if a[:1] == 'I' or a[:2] == 'Do'}
     ctx.extra_cov['mc_states'] = r.distinct
-
-    # ---- 2. leads: the strict contract fails on the model of the code; shortest counterexamples
-    lead = ctx.tlc('Cache', 'Cache.Lead_dedup.cfg', timeout=600, workers=4)
+    if 'mc3' in R:
+        if not R['mc3'].ok:
+            raise vlib.Inconclusive(f'TLC did not pass on Cache.MC3_thorough.cfg: violated={R["mc3"].violated}\n'
+                                    + '\n'.join(R['mc3'].stdout.splitlines()[-30:]))
+        ctx.extra_cov['mc3_states'] = R['mc3'].distinct
+    lead, lead2 = R['lead1'], R['lead2']
     if lead.violated != 'StrictSizeNoStray':
         raise vlib.Inconclusive(f'lead run Lead_dedup: expected StrictSizeNoStray to fail on the model, got violated={lead.violated} ok={lead.ok}')
-    lead2 = ctx.tlc('Cache', 'Cache.Lead_stray.cfg', timeout=600, workers=4)
     if lead2.violated != 'StrictSizeNoDedup':
         raise vlib.Inconclusive(f'lead run Lead_stray: expected StrictSizeNoDedup to fail on the model, got violated={lead2.violated} ok={lead2.ok}')
     ctx.extra_cov['lead_dedup_trace_len'] = len(lead.trace)
     ctx.extra_cov['lead_stray_trace_len'] = len(lead2.trace)
+    g, sim = R['gen'], R['sim']
+    if not g.ok:
+        raise vlib.Inconclusive(f'TLC did not pass on {sq["gen"]}: violated={g.violated}\n' + '\n'.join(g.stdout.splitlines()[-30:]))
+    if not sim.ok:
+        raise vlib.Inconclusive('simulation run failed: ' + sim.stdout[-1500:])
 
-    binary = ctx.go_build('cache')
+    # ---- 4. trace recording + validation runs in the background while the sequential histories are replayed
+    stats = {'traces_accepted': 0, 'trace_ops': 0, 'traces_with_overlap': 0, 'tlc_trace_states': 0, 'tlc_trace_generated': 0}
+    lock = threading.Lock()
+    jobs = []
+    left, k = tc['traces'], 0
+    while left > 0:
+        n = min(tc['chunk'], left)
+        path = ctx.tmp(f'trace-{k}.ndjson')
+        record(ctx, binary, ctx.seed * 1000 + k, n, tc['threads'], tc['ops'], path)
+        jobs.append((path, f'c{k}'))
+        left -= n
+        k += 1
+    errs = []
 
-    # ---- 3. sequential replay
-    g = ctx.tlc_must_pass('Cache', sq['gen'], timeout=2400, dump=True, workers=workers)
+    def work(job):
+        st = {'traces_accepted': 0, 'trace_ops': 0, 'traces_with_overlap': 0, 'tlc_trace_states': 0, 'tlc_trace_generated': 0}
+        try:
+            validate_chunk(ctx, job[0], job[1], st)
+        except vlib.Inconclusive as e:
+            errs.append(str(e))
+        with lock:
+            for a, b in st.items():
+                stats[a] += b
+    tex = concurrent.futures.ThreadPoolExecutor(max_workers=max(1, min(tc['par'], ncpu - 1)))
+    tfuts = [tex.submit(work, j) for j in jobs]
+
+    # ---- 3b. sequential replay
     cases = []
     for h in final_histories(g.dump_path, sq['maxops']):
         cases.append({'mode': 'seq', 'limit': sq['limit'], 'conc': 0, 'steps': h})
@@ -296,9 +391,6 @@ def run(ctx):
         raise vlib.Inconclusive('no sequential histories in the dump')
     chosen = vlib.sample_list(ctx.rng, cases, sq['replay_budget'])
     ctx.exhaustive = (len(chosen) == total_hist)
-    sim = ctx.tlc('Cache', SIM_CFG, simulate={'num': sq['sim']}, depth=sq['depth'], timeout=1500, workers=sq['simw'], count=True)
-    if sim.timed_out or not sim.ok:
-        raise vlib.Inconclusive('simulation run failed: ' + sim.stdout[-1500:])
     simcases = [{'mode': 'seq', 'limit': 260, 'conc': 0, 'steps': h} for h in sim_histories(ctx, sim)]
     if not simcases:
         raise vlib.Inconclusive('no simulated behaviours')
@@ -328,33 +420,10 @@ def run(ctx):
                           'seq_steps_with_limit_rejection': n_limit, 'seq_steps_with_type_conflict': n_conf,
                           'seq_cases_showing_F8': n_f8})
 
-    # ---- 4. trace validation
-    stats = {'traces_accepted': 0, 'trace_ops': 0, 'traces_with_overlap': 0, 'tlc_trace_states': 0}
-    import concurrent.futures
-    import threading
-    lock = threading.Lock()
-    jobs = []
-    left, k = tc['traces'], 0
-    while left > 0:
-        n = min(tc['chunk'], left)
-        path = ctx.tmp(f'trace-{k}.ndjson')
-        record(ctx, binary, ctx.seed * 1000 + k, n, tc['threads'], tc['ops'], path)
-        jobs.append((path, f'c{k}'))
-        left -= n
-        k += 1
-    errs = []
-
-    def work(job):
-        st = {'traces_accepted': 0, 'trace_ops': 0, 'traces_with_overlap': 0, 'tlc_trace_states': 0}
-        try:
-            validate_chunk(ctx, job[0], job[1], st)
-        except vlib.Inconclusive as e:
-            errs.append(str(e))
-        with lock:
-            for a, b in st.items():
-                stats[a] += b
-    with concurrent.futures.ThreadPoolExecutor(max_workers=tc['par']) as ex:
-        list(ex.map(work, jobs))
+    # ---- 4b. join the trace validations
+    for f in tfuts:
+        f.result()
+    tex.shutdown()
     if errs:
         raise vlib.Inconclusive(errs[0])
     if stats['traces_accepted'] == 0:
@@ -362,6 +431,8 @@ def run(ctx):
     if stats['traces_with_overlap'] == 0:
         raise vlib.Inconclusive('vacuity guard: no recorded trace has overlapping operations')
     ctx.extra_cov.update(stats)
+    ctx.states += stats['tlc_trace_states']
+    ctx.transitions += stats['tlc_trace_generated']
 
     ctx.rule = ('sequential: a replayed TLC history (maximal history of the VIEW-reduced sequential state space of Cache.tla, or a '
                 'random TLC behaviour of <= 14 operations with multi-value/unsorted/mixed-type batches over 3 keys x 3 timestamps x 3 '
